@@ -79,6 +79,8 @@ fn perturb(tree: &mut Value, path: &[Seg], variant: usize) -> Option<String> {
             let max = match name.as_str() {
                 "rdh_version" | "data_format" | "links" | "layer_staves_seen" | "staves_with_errors" => 255,
                 "fee_id" => 65535,
+                "run_trigger_type" | "hbfs_seen" => u32::MAX as u64,
+                _ if path_str(path).contains(".trigger_stats.") || path_str(path).contains(".readout_flags.") => u32::MAX as u64,
                 _ => u64::MAX / 4,
             };
             let y = if x >= max { x - 1 } else { x + 1 };
@@ -351,6 +353,6 @@ pub fn build() -> Property {
             "`is_finalized` is a flag, not a statistic; `alpide_stats` is collected in stave mode only (the statement's `that the run also collects`)".into(),
             "runs with a FATAL early stop are excluded".into(),
         ],
-        phases: vec![Phase { name: "roundtrip_and_drift", kind: PhaseKind::Gen { cases: (64, 640), tape_len: 200 + 64 + 2000 + 4 * 4000 + 14000 + 300, f: Box::new(case) }, threads: 16 }],
+        phases: vec![Phase { name: "roundtrip_and_drift", kind: PhaseKind::Gen { cases: (400, 2500), tape_len: 200 + 64 + 2000 + 4 * 4000 + 14000 + 300, f: Box::new(case) }, threads: 16 }],
     }
 }
